@@ -56,6 +56,29 @@ def model_value(model, term):
 
 
 _CLS_CACHE = {}
+_VARS_CACHE = {}
+
+
+def vars_of(expr):
+  """names of the uninterpreted constants occurring in expr"""
+  k = expr.get_id()
+  r = _VARS_CACHE.get(k)
+  if r is not None: return r[1]
+  out = set(); seen = set(); stack = [expr]
+  while stack:
+    e = stack.pop()
+    i = e.get_id()
+    if i in seen: continue
+    seen.add(i)
+    if z3.is_app(e):
+      if e.num_args() == 0:
+        if e.decl().kind() == z3.Z3_OP_UNINTERPRETED: out.add(e.decl().name())
+      else:
+        stack.extend(e.children())
+  if len(_VARS_CACHE) > 50000: _VARS_CACHE.clear()
+  _VARS_CACHE[k] = (expr, frozenset(out))
+  return _VARS_CACHE[k][1]
+
 
 
 def classify(expr):
@@ -235,6 +258,9 @@ class Ctx:
 
   # ---- path condition ------------------------------------------------
   def _add(self, expr):
+    if isinstance(expr, bool):
+      if not expr: raise PathAbort("contradictory stub fact")
+      return
     expr = z3.simplify(expr)
     if z3.is_true(expr): return
     i = expr.get_id()
@@ -498,10 +524,28 @@ class Ctx:
       out.append(s[:160])
     return out
 
-  def model_dict(self, model=None):
+  def model_dict(self, model=None, inputs_only=False):
     """name -> Fraction/int for every declared variable."""
     out = {}
     full = model
+    if full is None and inputs_only:
+      # witness over the harness inputs only: auxiliary (stub) variables are existential, drop what mentions them
+      inputs = {n for n, (kind, c) in self.vars.items() if kind != "aux"}
+      sol = z3.Solver(); sol.set("timeout", self.timeout_ms)
+      for e, _ in self.pc:
+        if vars_of(e) <= inputs: sol.add(e)
+      if str(sol.check()) != "sat": return None
+      full = sol.model()
+      for name, (kind, c) in self.vars.items():
+        if kind == "aux": continue
+        v = full.eval(c, model_completion=True)
+        if kind == "elem": out[name] = "E0"
+        elif kind == "int": out[name] = int(_num_to_fraction(v))
+        else:
+          out[name] = _num_to_fraction(v)
+          if z3.is_algebraic_value(v): out.setdefault("__inexact__", True)
+      out["__inputs_only__"] = True
+      return out
     if full is None:
       sol = z3.Solver() if (self.mixed or any("int" in c for _, c in self.pc)) \
             else z3.Tactic("qfnra-nlsat").solver()
@@ -845,7 +889,7 @@ def explore(harness, cfg, caps, hname="?"):
       if (stats.paths - 1) % wit_every == 0 and caps.get("witness", True):
         Ctx.cur = ctx
         try:
-          md = ctx.model_dict()
+          md = ctx.model_dict(inputs_only=bool(caps.get("witness_inputs_only")))
         except Exception as e:
           md = None
         finally:
@@ -859,7 +903,9 @@ def explore(harness, cfg, caps, hname="?"):
           stats.witness_skipped += 1
         else:
           rep = run_concrete(harness, cfg, md, caps)
-          if rep["status"] == "ok":
+          if rep["status"] == "ok" and md.get("__inputs_only__"):
+            stats.witnesses += 1
+          elif rep["status"] == "ok":
             cobs = rep["ctx"].observations
             ok = len(cobs) == len(ctx.observations)
             bad = None
